@@ -5,15 +5,16 @@ import CloakModel.Gen.AuthDH
 /-! # C07 — Only holders of valid, timely credentials are ever treated as Cloak clients
 
 The decision function `HS.decide` (`Model/Dispatch.lean`, what the driver runs against the real
-`dispatchConnection` / `AuthFirstPacket`) answers a peer with a handshake reply (`admin`, `proxy`) —
-or, for an authorised user whose `GetSession` fails, with nothing (`stall`) — only if `Valid` holds:
+`dispatchConnection` / `AuthFirstPacket`) answers a peer with a handshake reply (`admin`, `proxy`) only if `Valid` holds:
 the first packet is complete, the transport extracts 32 bytes `rand` and a block `ct`, key agreement
 with the static key succeeds, the block OPENS under that secret with nonce `rand[0:12]` (so, by the
 law `Lawful.open_sound`, it IS the sealing of the plaintext under the secret shared with the server's
 static key: encrypted to the server key, unmodified), `rand` was not seen before, the timestamp is
 strictly inside the window, the encryption method is one of those served, and either the admin gate
 holds or the proxy method is served and the UID is bypass / already active / authorised by the store.
-Everything else that is a complete first packet goes to the redirect address. -/
+Everything else that is a complete first packet goes to the redirect address — including the packet of an entitled
+user whose new session `GetSession` refuses (session cap reached; credit / expiry of a cached active user no longer
+allow one): `c07_handled`, `c07_refused_session_web`; no first packet is left unanswered, unrelayed and unclosed. -/
 set_option linter.unusedSimpArgs false
 set_option linter.unusedVariables false
 
@@ -200,7 +201,7 @@ theorem dispatchInfo_entitled (s : Srv) (info : ClientInfo) (now : Int) (d : Dec
     (h : (dispatchInfo s info now).2 = d) (hd : d ≠ .web) :
     Entitled s info now ∧ d ≠ .closeOnly ∧
     (d = .admin ↔ (info.enc.toNat ≤ 3 ∧ s.adminUID ≠ [] ∧ info.uid = s.adminUID ∧ info.sid = 0)) := by
-  unfold dispatchInfo at h
+  unfold dispatchInfo dispatchInfoWith at h
   have hlen : ((s.adminUID.length : Int) ≠ 0) ↔ s.adminUID ≠ [] := by
     constructor
     · intro h he; rw [he] at h; exact h rfl
@@ -365,11 +366,120 @@ theorem c07_admin_gate (C : Crypto) (s : Srv) (stream : Bytes) (hidden : Option 
       rw [gen_admin_gate]
       refine ⟨?_, by simpa using h2, by omega⟩
       intro hz; apply h1; exact List.eq_nil_of_length_eq_zero (by omega)
-    unfold dispatchInfo
+    unfold dispatchInfo dispatchInfoWith
     simp only [henc', Bool.not_true, Bool.false_eq_true, if_false, hg, if_true]
 
+/-! ## 4. No first packet is left hanging -/
+
+/-- the branch of `dispatchConnection` taken when `user.GetSession` refuses a new session ends in `goWeb(); return`
+and does not reply -/
+theorem gen_getsession_refusal : Gen.Auth.getSessionErrGoesWeb = true ∧ Gen.Auth.getSessionErrReturns = true := by decide
+
+theorem dispatchInfo_no_stall (s : Srv) (info : ClientInfo) (now : Int) : (dispatchInfo s info now).2 ≠ .stall := by
+  unfold dispatchInfo dispatchInfoWith
+  rw [gen_getsession_refusal.1]
+  simp only [apply_ite Prod.snd, ↓reduceIte]
+  repeat' split
+  all_goals simp
+
+/-- **C07 (every first packet is handled).** Whatever a peer sends and whatever the server's state, the connection
+ends in exactly one of: closed (incomplete first packet), relayed to the redirect address, the admin API, a proxy
+session.  It is never left with no reply, no relay and no close. -/
+theorem c07_handled (C : Crypto) (s : Srv) (stream : Bytes) (hidden : Option Bytes) (now : Int) :
+    (HS.decide C s stream hidden now).2 ≠ .stall := by
+  unfold HS.decide
+  cases hr : readFirst stream with
+  | closed => simp
+  | web => simp
+  | packet t data =>
+    simp only [dispatchFrag]
+    cases he : extract C s t data hidden with
+    | badHello => simp
+    | unmarshal => simp
+    | ok rand ct secret =>
+      simp only
+      cases ha : authFrag C s.cache ⟨secret, rand, ct⟩ now with
+      | mk c r =>
+        cases r with
+        | ok info => simp only; exact dispatchInfo_no_stall _ _ _
+        | replay => simp
+        | badDecrypt e => simp
+        | badKey => simp
+
+/-- **C07 (every other first packet is web traffic).** A complete first packet that is not accepted as a Cloak
+handshake (neither the admin API nor a proxy session) is relayed to the redirect address — whether or not it carried
+valid credentials (a valid packet may be refused: `c07_refused_session_web`). -/
+theorem c07_not_accepted_web (C : Crypto) (s : Srv) (stream : Bytes) (hidden : Option Bytes) (now : Int)
+    (hcomplete : readFirst stream ≠ .closed)
+    (hna : (HS.decide C s stream hidden now).2 ≠ .admin)
+    (hnp : ∀ uid sid ex, (HS.decide C s stream hidden now).2 ≠ .proxy uid sid ex) :
+    (HS.decide C s stream hidden now).2 = .web := by
+  by_cases hv : Valid C s stream hidden now
+  · have hst := c07_handled C s stream hidden now
+    have hcl : (HS.decide C s stream hidden now).2 ≠ .closeOnly := by
+      intro hc
+      by_cases hw : (HS.decide C s stream hidden now).2 = .web
+      · rw [hw] at hc; simp at hc
+      · -- closeOnly only arises from an incomplete first packet
+        unfold HS.decide at hc
+        cases hr : readFirst stream with
+        | closed => exact hcomplete hr
+        | web => simp [hr] at hc
+        | packet t data =>
+          simp only [hr, dispatchFrag] at hc
+          cases he : extract C s t data hidden with
+          | badHello => simp [he] at hc
+          | unmarshal => simp [he] at hc
+          | ok rand ct secret =>
+            simp only [he] at hc
+            cases ha : authFrag C s.cache ⟨secret, rand, ct⟩ now with
+            | mk c r =>
+              cases r with
+              | ok info =>
+                simp only [ha] at hc
+                by_cases hweb : (dispatchInfo { s with cache := c } info now).2 = .web
+                · rw [hweb] at hc; simp at hc
+                · exact (dispatchInfo_entitled { s with cache := c } info now _ rfl hweb).2.1 hc
+              | replay => simp [ha] at hc
+              | badDecrypt e => simp [ha] at hc
+              | badKey => simp [ha] at hc
+    cases hd : (HS.decide C s stream hidden now).2 with
+    | web => rfl
+    | closeOnly => exact absurd hd hcl
+    | admin => exact absurd hd hna
+    | proxy uid sid ex => exact absurd hd (hnp uid sid ex)
+    | stall => exact absurd hd hst
+  · exact c07_else_web C s stream hidden now hcomplete hv
+
+/-- **C07 (a refused new session is web traffic).** An authenticated packet of a non-bypass user that names a served
+method and a session id the user does not have, while the store does not authorise another session (cap reached,
+credit exhausted, expired, record deleted — e.g. for a user still cached as active): relayed to the redirect address,
+exactly like the same packet of a user that is not active. -/
+theorem c07_refused_session_web (s : Srv) (info : ClientInfo) (now : Int)
+    (henc : Gen.Auth.encMethods.contains (info.enc.toNat : Int) = true)
+    (hgate : Gen.Auth.adminGate (s.adminUID.length : Int) (info.uid == s.adminUID) (info.sid : Int) = false)
+    (hm : s.proxyBook.contains info.method = true)
+    (hbyp : isBypass s info.uid = false)
+    (hnew : (sessionsOf s info.uid).contains info.sid = false)
+    (hrefuse : dbAuthoriseSession s info.uid (now / 1000000000) (sessionsOf s info.uid).length = false) :
+    (dispatchInfo s info now).2 = .web := by
+  unfold dispatchInfo dispatchInfoWith
+  rw [gen_getsession_refusal.1]
+  simp [henc, hgate, hm, hbyp, hnew, hrefuse, apply_ite Prod.snd]
+  intro _ _ _
+  simpa using hnew
+
+/-- the pinned code (`user.CloseSession(…); log.Error(err); return` — the fact is `false`): the second session of a
+user whose cap is 1 is neither answered, relayed nor closed -/
+theorem c07_stall_pinned_witness :
+    let uidU : Bytes := List.replicate 16 2
+    let s : Srv := ⟨[], [], [], [[115]], [(uidU, ⟨10, 10, 2000, 1⟩)], [], [(uidU, [0])]⟩
+    (dispatchInfoWith false s ⟨uidU, 5, [115], 1, false⟩ 1000000000000).2 = .stall ∧
+    (dispatchInfoWith true s ⟨uidU, 5, [115], 1, false⟩ 1000000000000).2 = .web := by
+  decide
+
 /-- non-vacuity: a server with an admin, a store record and a served method; the branches after
-authentication really produce `admin`, `proxy`, `stall` and `web` -/
+authentication really produce `admin`, `proxy` and `web` (the refused second session of a user with cap 1 included) -/
 example :
     let uidA : Bytes := List.replicate 16 1
     let uidU : Bytes := List.replicate 16 2
@@ -377,7 +487,7 @@ example :
     (dispatchInfo s ⟨uidA, 0, [115], 1, false⟩ 1000000000000).2 = .admin ∧
     (dispatchInfo s ⟨uidA, 7, [115], 1, false⟩ 1000000000000).2 = .proxy uidA 7 false ∧
     (dispatchInfo s ⟨uidU, 0, [115], 1, false⟩ 1000000000000).2 = .proxy uidU 0 false ∧
-    (dispatchInfo (dispatchInfo s ⟨uidU, 0, [115], 1, false⟩ 1000000000000).1 ⟨uidU, 5, [115], 1, false⟩ 1000000000000).2 = .stall ∧
+    (dispatchInfo (dispatchInfo s ⟨uidU, 0, [115], 1, false⟩ 1000000000000).1 ⟨uidU, 5, [115], 1, false⟩ 1000000000000).2 = .web ∧
     (dispatchInfo s ⟨uidU, 0, [115], 1, false⟩ 2001000000000).2 = .web ∧
     (dispatchInfo s ⟨uidU, 0, [116], 1, false⟩ 1000000000000).2 = .web ∧
     (dispatchInfo s ⟨uidU, 0, [115], 4, false⟩ 1000000000000).2 = .web := by
@@ -389,6 +499,9 @@ end C07
 #print axioms C07.c07_else_web
 #print axioms C07.c07_admin_gate
 #print axioms C07.c07_window_exact
+#print axioms C07.c07_handled
+#print axioms C07.c07_not_accepted_web
+#print axioms C07.c07_refused_session_web
 
 /-- **the key agreement refuses degenerate peer values** (regenerated facts): `ecdh.GenerateSharedSecret` returns what
 `curve25519.X25519` returns, error included, and both transports stop on that error before using the secret.  The
